@@ -67,6 +67,9 @@ func ParseHexTimestamp(ts string) ([]byte, error) {
 	for len(ts) < 16 {
 		ts = "0" + ts
 	}
+	if len(ts) > 16 {
+		return nil, fmt.Errorf("hex timestamp too long: %d digits, at most 16", len(ts))
+	}
 	return hex.DecodeString(ts)
 }
 
